@@ -643,8 +643,8 @@ class SimulateOde(DeterministicOde):
 
         dX=np.array(dX)   # convert to numpy array so we can interpolate between timepoints
 
-        dims=dX.shape         # Get dimensions of data (timepoints x n_trans)
-        n_trans=dims[1]
+        n_trans=self.num_events
+        dX=dX.reshape(-1, n_trans)  # also for a path without events (empty array)
 
         # empty matrix to receive scaled data = (new timepoints x n_trans)
         # minus one because we are looking at jumps which occur betwen timepoints
